@@ -97,6 +97,67 @@ PROPS["C18"] = {
     "trusted_base": STD + ["daysFromCivil (civil date -> Unix day) is validated by the correspondence run only"],
 }
 
+PROPS["C09"] = {
+    "spec_key": "c09",
+    "runs": [{"engine": "csv", "mode": "rt", "n_quick": 5000, "n_thorough": 400000}],
+    "rule": "frames of 1-4 columns x 0-5 rows; cells: ints incl. +-2^53, floats incl. NaN, +-Inf, -0, subnormal, MaxFloat64, 2^53+1, text over "
+            "comma / quote / LF / CR / tab / non-ASCII / empty / backslash-dot; names from the same alphabet incl. the empty name; 15% of frames "
+            "contain out-of-domain cells (untrimmed text, numeric text, CR LF inside, nil, bool) and are only compared with the model; "
+            "non-trivial = in-domain frame with >= 1 row whose CSV text contains a quote",
+    "assumptions": ["strconv.ParseFloat / strings.TrimSpace / %v of floats enter through the per-case oracle table (laws: CellLaw in Props/C09.lean)",
+                    "the Lean model of encoding/csv is validated against the real package by the C10 runs (all byte strings up to length 5 over "
+                    "the structural alphabet in the quick tier)"],
+    "trusted_base": STD + ["Lean model of encoding/csv reader and writer (Std/Csv.lean)"],
+}
+PROPS["C10"] = {
+    "spec_key": "c10",
+    "runs": [{"engine": "csv", "mode": "imp", "n_quick": 5000, "n_thorough": 400000},
+             {"engine": "csv", "mode": "small", "n_quick": 19608, "n_thorough": 960800,
+              "exhaustive": "FromCSVReader and encoding/csv vs the Lean reader on all byte strings of length <= 5 (quick) / <= 7 (thorough) over {a , quote CR LF space 1}"}],
+    "rule": "grammar-generated tables (quoted/unquoted fields, numeric look-alikes: signs, exponents, hex floats, inf/nan spellings, "
+            "underscores, 1e400, 1e-400, surrounding blanks), ragged and empty records, CR/LF variants, repeated header names, byte-level "
+            "mutations (flip, insert, delete, truncate); plus EVERY byte string up to length 5 (thorough: 7) over {a , quote CR LF space 1}; "
+            "the typing oracle is the harness's own strconv.ParseFloat(strings.TrimSpace(field), 64); encoding/csv's own ReadAll on the same "
+            "bytes validates the Lean reader; non-trivial = at least two records",
+    "assumptions": ["the Lean reader model equals encoding/csv with default settings (measured on every run, not proved)"],
+    "trusted_base": STD + ["Lean model of encoding/csv reader (Std/Csv.lean)"],
+}
+_SQLW = {"assumptions": ["the recording driver interprets no SQL; statements are lexed, parsed and executed on an abstract database in Lean",
+                         "TypeMap values are user-supplied SQL and are treated as opaque token lists"],
+         "trusted_base": STD + ["Lean SQL lexer/parser and abstract transactional database (Std/SqlLex.lean, Ops/SqlWrite.lean)",
+                                "database/sql's Tx life-cycle: Commit finishes the Tx whether or not the driver's commit succeeded"]}
+PROPS["C11"] = dict(_SQLW, spec_key="c11",
+    runs=[{"engine": "sqlw", "mode": "", "n_quick": 3000, "n_thorough": 200000}],
+    rule="frames 0-25 rows x 0-4 columns over nil/int widths/float/string/bool/time; 3 dialects + aliases + mixed case + unknown; "
+         "IfExists x table present/absent; batch sizes 1..rows+2, default, 0, negative, 2^62; with/without TypeMap; four entry points; "
+         "every recorded statement is lexed+parsed in Lean, executed on the abstract database and the final table compared with the "
+         "frame's rows; non-trivial = at least one INSERT issued")
+PROPS["C12"] = dict(_SQLW, spec_key="c12",
+    runs=[{"engine": "sqlw", "mode": "fault", "n_quick": 400, "n_thorough": 30000}],
+    rule="for each scenario the fault-free run is followed by one run per driver call with THAT call failing (Begin, existence query, "
+         "DROP, CREATE, every INSERT batch, Commit, Rollback): exhaustive over fault positions per scenario; the abstract database is "
+         "evolved from the implementation's own trace; non-trivial = at least one INSERT issued")
+PROPS["C13"] = dict(_SQLW, spec_key="c13",
+    runs=[{"engine": "qid", "mode": "", "n_quick": 7381, "n_thorough": 597871,
+           "exhaustive": "QuoteIdentifier x 3 dialects on all strings of length <= 4 (quick) / <= 6 (thorough) over a 9-character alphabet"},
+          {"engine": "qid", "mode": "random", "n_quick": 500, "n_thorough": 20000},
+          {"engine": "sqlw", "mode": "names", "n_quick": 1500, "n_thorough": 100000}],
+    rule="QuoteIdentifier of the three exported dialects on EVERY string up to length 4 (thorough: 6) over {\" ` ' \\ ; - space a b} plus "
+         "random longer / non-ASCII names; whole ToSQL runs whose table and column names come from an injection alphabet, every statement "
+         "lexed by the independent Lean lexer; non-trivial = name contains a quote character / an INSERT was issued")
+PROPS["C14"] = {
+    "spec_key": "c14",
+    "runs": [{"engine": "sqlr", "mode": "", "n_quick": 5000, "n_thorough": 400000}],
+    "rule": "result sets of 0-20 rows x 1-5 columns; declared types from the property's list plus unknown ones and look-alikes (POINT, "
+            "INTERVAL, DATETIME2, lower case); NULL rates 0/10/30/100%; handlers none/nil/zero/skip_row/map/unknown string/wrong type; "
+            "ParseDates subsets with strings produced by formatting known times in the seven layouts, Unix seconds/milliseconds, "
+            "unparsable strings; four entry points; nil handle, empty query, query error, iteration error at every row, scan error, "
+            "duplicate column; non-trivial = successful read of >= 2 rows containing a NULL",
+    "assumptions": ["database/sql scan conversions are exercised only with values of the declared column's natural Go type",
+                    "time.Parse / time.Unix enter through the oracle table; the harness runs with time.Local = UTC"],
+    "trusted_base": STD,
+}
+
 def _t(text, note, technique, ref):
     return {"text": text, "note": note, "technique": technique, "design_ref": ref}
 
@@ -146,6 +207,43 @@ MANIFEST_TEXT.update({
     "C19": _t("Shift is proved cell-exact for every 64-bit offset (the wrapped subtraction of the code decides 'inside the frame' like the "
               "mathematical one), shape-preserving, identity at 0 and invertible off the ends; the real Shift is compared on boundary and "
               "extreme offsets.", _NOTE, _TECH, "DESIGN.md §6 C19"),
+})
+
+MANIFEST_TEXT.update({
+    "C01": MANIFEST_TEXT["C01"], "C02": MANIFEST_TEXT["C02"], "C20": MANIFEST_TEXT["C20"],
+    "C09": _t("csv layer: readAll(writeAll q recs) = recs is proved for every table of strings (induction over records, fields and bytes "
+              "against the reader's state machine) and lifted through the cell layer (%v then the typing rule) to whole frames; the pinned "
+              "writer is refuted on the lone-empty-field witness. Real ToCSVWriter -> FromCSVReader runs are compared byte for byte and "
+              "cell for cell.", _NOTE + " encoding/csv is modelled, strconv/fmt enter as oracle laws.", _TECH, "DESIGN.md §6 C09"),
+    "C10": _t("fromCSV of the model is proved total (no panic), its success and error cases are characterised exactly (reader error, no "
+              "record, repeated header), and every cell is typed by the one rule; the real FromCSVReader is run on generated, mutated "
+              "and exhaustively enumerated short byte strings with an independent typing oracle.", _NOTE, _TECH, "DESIGN.md §6 C10"),
+    "C11": _t("Batches are proved to tile the rows exactly (1..BatchSize each), INSERTs to carry rows x columns bound values, and executing "
+              "the planned statements on the abstract database is proved to leave exactly the frame's rows (after the old ones for "
+              "append); fail mode writes nothing. Recorded statements of real ToSQL runs are parsed and executed in Lean and compared.",
+              _NOTE, _TECH, "DESIGN.md §6 C11"),
+    "C12": _t("Over the transaction-protocol model a fault at EVERY call position is proved to yield an error, no successful commit (so the "
+              "published database is the initial one) and a rollback; success commits exactly once; the Tx variants never end the caller's "
+              "transaction. The real code is run with the driver failing each call in turn (exhaustive per scenario).",
+              _NOTE + " database/sql's asynchronous rollback on context cancellation is not modelled.", _TECH, "DESIGN.md §6 C12"),
+    "C13": _t("For ALL names: the quoted identifier is lexed back as exactly the name and lexing stops at its end, quoting is injective, and "
+              "DROP/CREATE/INSERT statements lex to exactly the expected token stream; the pinned quoting is refuted by decide. "
+              "QuoteIdentifier is compared with the model on every string up to length 4 (6) and real statements are lexed in Lean.",
+              _NOTE, _TECH, "DESIGN.md §6 C13"),
+    "C14": _t("The scan-type table, the NULL policy (nil/zero/skip_row/map/unknown), the NULL-free and skip_row result shapes and the "
+              "error cases (iteration/scan/query error, nil handle, empty query, unknown handler on NULL) are theorems about the model; "
+              "the real FromSQL* are run against a driver serving configured result sets and compared.", _NOTE, _TECH, "DESIGN.md §6 C14"),
+    "C16": _t("Series/frame Sum/Mean/Min/Max of the model are proved equal to the arithmetic reference (NaN ignored by Min and Max wherever it "
+              "occurs), order-independent, bounded and attained; Describe is proved to agree with them on numeric columns; Add cell-wise. "
+              "Exact rationals; real results compared on inputs where float64 arithmetic is exact.",
+              _NOTE + " IEEE rounding is not modelled.", _TECH, "DESIGN.md §6 C16"),
+    "C17": _t("The collector is proved schedule-independent for every delivery permutation; the worker pool as a transition system is "
+              "proved to deliver every row index exactly once in every complete execution; hence every schedule gives the sequential "
+              "result. The real Apply is run under forced completion orders (verif gate) with the race detector.",
+              _NOTE + " Data-race freedom is a Go-memory-model statement: race detector runs are supporting evidence only.", _TECH, "DESIGN.md §6 C17"),
+    "C18": _t("Truncation is proved idempotent and bucket equality characterised by civil fields; the result is proved independent of map "
+              "iteration order, sorted ascending without repeats, and equal to the row-level specification; invalid requests are errors. "
+              "The real Resample is called repeatedly per case and compared.", _NOTE, _TECH, "DESIGN.md §6 C18"),
 })
 
 NOT_APPLICABLE = {}
